@@ -482,7 +482,12 @@ def companion_states(g):
         ws = [{'k': 'int', 'v': '1'}, {'k': 'int', 'v': '3'}]
     else:
         ws = [{'k': 'int', 'v': '0'}, {'k': 'int', 'v': '1'}, {'k': 'int', 'v': '3'}, fl(0.5), fl(0.1)]
-    return [{a: w for a in sel} for w in ws]
+    out = [{a: w for a in sel} for w in ws]
+    if len(sel) > 1:          # companions holding different values: a guard reading the wrong one is told apart
+        st = [{'k': 'int', 'v': '0'}, {'k': 'int', 'v': '3'}, {'k': 'int', 'v': '1'}, {'k': 'int', 'v': '2'}]
+        out.append({a: st[i % 4] for i, a in enumerate(sel)})
+        out.append({a: st[(i + 1) % 4] for i, a in enumerate(sel)})
+    return out
 
 
 def probes_for(g, comp, small):
@@ -516,28 +521,32 @@ def run_build_case(cls, b, guards, dspec):
     except Exception as ex:  # noqa: BLE001
         obj = None
         out, exc = hlib.exc_kind(ex), type(ex).__name__
-    # oracle: apply the documented domains in item order on a shadow of the default state
+    # oracle: key k is documented by the guard of the SAME-NAMED attribute k, applied in item order
     shadow = fresh(ref)
     expect = 'ok'
     first_bad = None
     for it in b['items']:
-        if it['read'] in d:
-            g = guards[it['attr']]
-            m = in_domain(g['doms'], shadow, d[it['read']])
+        k = it['read']
+        if k in d:
+            g = guards.get(k)
+            if g is None:
+                continue
+            m = in_domain(g['doms'], shadow, d[k])
             if not m:
                 expect = 'reject'
-                first_bad = it['read']
+                first_bad = k
                 break
-            shadow.__dict__['_' + it['attr']] = d[it['read']]
+            shadow.__dict__['_' + k] = d[k]
     verdict = None
     if out == 'ok':
         if expect != 'ok':
             verdict = 'accepted-outside-domain'
         else:
-            for it in b['items']:
-                if it['read'] in d and obj.__dict__.get('_' + it['attr'], MISSING) is not d[it['read']]:
+            for k in d:
+                if obj.__dict__.get('_' + k, MISSING) is not d[k]:
                     verdict = 'not-stored-unchanged'
-            if obj.__dict__.get('_hyperparams', MISSING) is not d and b.get('sets_hyper'):
+                    first_bad = k
+            if obj.__dict__.get('_hyperparams', MISSING) is not d:
                 verdict = verdict or 'not-stored-unchanged'
     elif out in KIND_CODE:
         if expect == 'ok':
@@ -546,7 +555,7 @@ def run_build_case(cls, b, guards, dspec):
         verdict = 'untyped-error'
     sel = []
     for it in b['items']:
-        for a in selfs_of(guards[it['attr']]):
+        for a in (selfs_of(guards[it['attr']]) if it['attr'] in guards else []):
             if a not in sel:
                 sel.append(a)
     state_abs = [[a, absval(ref.__dict__.get('_' + a))] for a in sel]
@@ -559,20 +568,22 @@ def run_build_case(cls, b, guards, dspec):
 def build_dicts(b, guards, small):
     out = []
     for it in b['items']:
-        g = guards[it['attr']]
+        key = it['read']
+        g = guards.get(key) or guards.get(it['attr'])
+        if g is None:
+            continue
         specs = list(SMALL)
         for c in consts_of(g):
             specs += around(c)
         for sp in dedup(specs):
-            out.append([(it['read'], sp)])
+            out.append([(key, sp)])
         # companion pairs: the companion key at c, this key at c, c +- step
         for a in selfs_of(g):
-            key = next((x['read'] for x in b['items'] if x['attr'] == a), None)
-            if key is None:
+            if not any(x['read'] == a for x in b['items']):
                 continue
             for c in ([0.5] if small else [0.5, 0.0, 1.0]):
                 for sp in around(c):
-                    out.append([(key, fl(c)), (it['read'], sp)])
+                    out.append([(a, fl(c)), (key, sp)])
     return out
 
 
@@ -582,7 +593,7 @@ def main():
     doc = hlib.payload()
     info = doc['info']
     by_name = {c['name']: c for c in info['classes']}
-    res = {'cases': [], 'builds': [], 'errors': [], 'nan': []}
+    res = {'cases': [], 'builds': [], 'errors': [], 'nan': [], 'ctor': []}
 
     def guards_of(cname):
         out, names, seen = [], set(), set()
@@ -600,14 +611,24 @@ def main():
     if only is not None:
         c = by_name[only['cls']]
         cls = import_class(c['file'], c['name'])
+        if only.get('kind') == 'ctor':
+            try:
+                template(cls, c['name'])
+            except Exception as ex:  # noqa: BLE001
+                res['ctor'].append({'cls': c['name'], 'out': hlib.exc_kind(ex), 'msg': repr(ex)[:200]})
+            hlib.emit(res)
+            return
         if only.get('kind') == 'build':
             gs = {g['attr']: g for g in guards_of(c['name'])}
             b = [x for x in c['builds'] if x['name'] == only['build']][0]
             res['builds'].append(run_build_case(cls, b, gs, [tuple(x) for x in only['dict']]))
         else:
             g = [x for x in guards_of(c['name']) if x['attr'] == only['attr']][0]
-            res['cases'].append(dict(run_case(template(cls, c['name']), g, only['comp'], only['spec'],
-                                              only.get('pre_ok', True)), cls=c['name']))
+            try:
+                tpl = template(cls, c['name'])
+            except Exception:  # noqa: BLE001
+                tpl = cls.__new__(cls)
+            res['cases'].append(dict(run_case(tpl, g, only['comp'], only['spec'], only.get('pre_ok', True)), cls=c['name']))
         hlib.emit(res)
         return
 
@@ -617,10 +638,15 @@ def main():
             continue
         try:
             cls = import_class(c['file'], c['name'])
+        except Exception as ex:  # noqa: BLE001
+            res['errors'].append({'cls': c['name'], 'msg': 'cannot import the class: %r' % ex})
+            continue
+        try:
             tpl = template(cls, c['name'])
         except Exception as ex:  # noqa: BLE001
-            res['errors'].append({'cls': c['name'], 'msg': 'cannot build a default instance: %r' % ex})
-            continue
+            # a constructor called with its own documented defaults raises: a concrete failing input by itself
+            res['ctor'].append({'cls': c['name'], 'out': hlib.exc_kind(ex), 'msg': repr(ex)[:200]})
+            tpl = cls.__new__(cls)            # bare instance: setters are still exercised one by one
         for g in gs:
             inherited = g['cls'] != c['name']
             small = inherited and hlib.QUICK
@@ -652,14 +678,14 @@ def main():
         for b in c['builds']:
             if b['dict'] is None or not b['items']:
                 continue
-            if any(it['attr'] not in gmap for it in b['items']):
-                res['errors'].append({'cls': c['name'], 'msg': '%s assigns an attribute without a setter' % b['name']})
-                continue
+            berr = 0
             for dspec in build_dicts(b, gmap, hlib.QUICK):
                 try:
                     res['builds'].append(run_build_case(cls, b, gmap, dspec))
                 except Exception as ex:  # noqa: BLE001
-                    res['errors'].append({'cls': c['name'], 'msg': 'build harness failure: %r' % ex})
+                    berr += 1
+                    if berr == 1 and not any(x['cls'] == c['name'] for x in res['ctor']):
+                        res['errors'].append({'cls': c['name'], 'msg': 'build harness failure: %r' % ex})
             # the dictionary itself goes through the `hyperparams` guard
             for sp in ({'k': 'int', 'v': '5'}, {'k': 'none'}, {'k': 'list', 'n': 0}, {'k': 'str', 'v': 'w'}):
                 try:
